@@ -6,10 +6,11 @@ LEAN_TARGETS = ['RPVerif.Props.C03', 'RPVerif.Props.C07']
 def run(ctx):
     schedsuite.run(ctx, 'C03')
     nodelistsuite.run(ctx, 'C03')
+    nodelistsuite.run_concurrent(ctx)
     noopsuite.run(ctx, 'C03')
 def replay(ctx, data):
     if 'noop' in data['input']:
         return noopsuite.replay(ctx, data)
-    if 'nodelist' in data['input']:
+    if 'nodelist' in data['input'] or 'conc' in data['input']:
         return nodelistsuite.replay(ctx, data, 'C03')
     return schedsuite.replay(ctx, data, 'C03')
